@@ -47,12 +47,14 @@ theorem recover_total_bn256 (cd : Codec G) (f : List (Zq Share.bn256Order)) (hm 
     ∀ s, recover cd f hm sigs t n ≠ .panic s :=
   Props.C02.recover_total cd f hm t n ht (charGt_go_int n hn) sigs
 
-/-- the complete case distinction, bn256 scalars -/
+/-- the complete case distinction, bn256 scalars, ANY public polynomial -/
 theorem recover_characterised_bn256 (cd : Codec G) (f : List (Zq Share.bn256Order)) (hm : G)
-    (t n : Nat) (ht : 0 < t) (hf : f.length ≤ t) (hn : n < 2 ^ 63) (sigs : List Bytes) :
+    (t n : Nat) (ht : 0 < t) (hn : n < 2 ^ 63) (sigs : List Bytes) :
     recover cd f hm sigs t n
-      = if t ≤ (members cd f hm n sigs).card then .ok (blsSign cd (f.headD 0) hm) else .errFew :=
-  Props.C02.recover_characterised cd f hm t n ht hf (charGt_go_int n hn) sigs
+      = if t < f.length then .errThreshold
+        else if t ≤ (members cd f hm n sigs).card then .ok (blsSign cd (f.headD 0) hm)
+        else .errFew :=
+  Props.C02.recover_characterised cd f hm t n ht (charGt_go_int n hn) sigs
 
 /-- a qualifying list built from what `tbls.Sign` emits (C02 `signed_share_valid` + `recover_unique`,
 any field / module): ANY `t` distinct members' shares (each index `< n ≤ 65536`), in any order with
@@ -103,6 +105,11 @@ example : recover cdR [(4 : Zq Share.bn256Order), 3] 2 [[0, 0, 14], [9], [0, 2, 
 
 example : ∀ s, recover cdR [(4 : Zq Share.bn256Order), 3, 9, 9] 2 [[0, 0, 14], [9], [0, 0, 15]] 1 3 ≠ .panic s :=
   recover_total_bn256 cdR _ 2 1 3 (by decide) (by decide) _
+
+/-- four coefficients, `t = 1`: refused by the guard (the characterisation's first branch) -/
+example : recover cdR [(4 : Zq Share.bn256Order), 3, 9, 9] 2 [[0, 0, 14], [9], [0, 0, 15]] 1 3
+    = .errThreshold := by
+  rw [recover_characterised_bn256 cdR _ 2 1 3 (by decide) (by decide)]; rfl
 
 open C02 in
 example : recover toyCodec [(4 : Zq 11), 3] 2
